@@ -121,6 +121,16 @@ Theorem C30_bob_message_order :
 Proof. exact bob_message_order. Qed.
 Print Assumptions C30_bob_message_order.
 
+(** A sink that takes only [k] messages: same behaviour up to the first refused send, which is
+    reported as [Sink] ([with_sink] cuts the unlimited run there). *)
+Theorem C30_sink_failure :
+  forall (topic half : Type) (teqb : topic -> topic -> bool) (H : topic -> salt half -> topic)
+         (k : nat) (p : party topic) (s : half) (inc : list (rx topic half)),
+    alice_run_k topic half teqb H k p s inc = with_sink topic half k (alice_run topic half teqb H p s inc) /\
+    bob_run_k topic half teqb H k p s inc = with_sink topic half k (bob_run topic half teqb H p s inc).
+Proof. intros; split; [apply alice_sink_failure|apply bob_sink_failure]. Qed.
+Print Assumptions C30_sink_failure.
+
 (** Causality of both sides and closure of the session: [session] is the unique run of the two
     deterministic sides over reliable ordered channels. *)
 Theorem C30_sent_monotone :
@@ -217,10 +227,14 @@ Proof. exact check_honest_sound. Qed.
 Print Assumptions C30_check_honest_sound.
 
 Theorem C30_check_script_sound :
-  forall alice r ts book script o sent leaks,
-  check_script alice r ts book script o sent leaks = true ->
-  outcome_err cw o = fst (expect cw N (if alice then alice_expects else bob_expects)
-                                 (map (to_rx (if alice then 1 else 0)%N) script) 0) /\
+  forall alice r ts book script sink o sent leaks,
+  check_script alice r ts book script sink o sent leaks = true ->
+  let spec := expect cw N (if alice then alice_expects else bob_expects)
+                     (map (to_rx (if alice then 1 else 0)%N) script) 0 in
+  let want := if alice then S (snd spec) else Nat.min 2 (snd spec) in
+  let k := match sink with Some k => k | None => 3 end in
+  (want <= k -> outcome_err cw o = fst spec /\ List.length sent = want) /\
+  (k < want -> outcome_err cw o = Some SinkErr /\ List.length sent = k) /\
   leaks = 0 /\
   (forall m, In m sent -> forall t, cw_raw t -> ~ occurs cw N t m).
 Proof. exact check_script_sound. Qed.
